@@ -23,7 +23,7 @@ import traceback
 from typing import Any
 from urllib.parse import urljoin, urlsplit
 
-from harness.common.fetch_origin import Origin, ReadMeter, spec_body
+from harness.common.fetch_origin import InflateMeter, Origin, ReadMeter, spec_body
 from harness.common.lean import b2j, j2s, s2j
 
 PROPERTY = "C31"
@@ -39,6 +39,7 @@ OBLIGATIONS: list[str] = [
     "VgiVerif.C31.C31_exact",
     "VgiVerif.C31.C31_exact_parallel",
     "VgiVerif.C31.C31_lying_probe",
+    "VgiVerif.C31.C31_inflate_bound",
     "VgiVerif.C31.C31_redact",
     "VgiVerif.C31.C31_redact_all",
 ]
@@ -86,19 +87,24 @@ SCHED = 1100  # schedule length handed to the model (>= number of chunks of any 
 
 _origin: Origin | None = None
 _meter: ReadMeter | None = None
+_inflate: InflateMeter | None = None
 
 
 def _setup() -> tuple[Origin, ReadMeter]:
-    global _origin, _meter
+    global _origin, _meter, _inflate
     if _origin is None:
         _origin = Origin()
         _meter = ReadMeter()
+        _inflate = InflateMeter()
     assert _meter is not None
     return _origin, _meter
 
 
 def _teardown() -> None:
-    global _origin, _meter
+    global _origin, _meter, _inflate
+    if _inflate is not None:
+        _inflate.uninstall()
+        _inflate = None
     if _meter is not None:
         _meter.uninstall()
         _meter = None
@@ -246,6 +252,8 @@ def run_real(case: dict[str, Any], origin: Origin, meter: ReadMeter) -> dict[str
 
     origin.set_script(case["script"], case.get("_prefix", "/"))
     meter.reset()
+    if _inflate is not None:
+        _inflate.reset()
     c = case["cfg"]
     seen: list[tuple[str, bool]] = []
     cap = _Capture()
@@ -281,6 +289,7 @@ def run_real(case: dict[str, Any], origin: Origin, meter: ReadMeter) -> dict[str
             out["close_error"] = repr(e)
         root.removeHandler(cap)
         root.setLevel(old_level)
+    out["inflate"] = _inflate.snapshot() if _inflate is not None else []
     out["log"] = origin.snapshot()
     out["reads"] = meter.records()
     out["validated"] = seen
@@ -537,6 +546,15 @@ def oracle(ctx: Any, case_id: dict[str, Any], case: dict[str, Any], real: dict[s
             ctx.fail(case_id, f"C31:read-bound:{'range' if r.get('range') else 'full'}",
                      f"{r['bytes']} bytes read from one {r.get('method')} response (Range {r.get('range')}), bound {bound}")
             return
+    # O3b: decoded bytes the inflaters produced for this fetch (library boundary): max_decompressed_bytes plus one bounded chunk,
+    # whether the fetch then succeeds or refuses the body
+    maxd0 = c["maxDecompressed"] if c["maxDecompressed"] is not None else 16 * c["maxFetch"]
+    for r in real.get("inflate", []):
+        if r["bytes"] > maxd0 + 65536:
+            ctx.fail(case_id, f"C31:decoded-bound:{r['codec']}",
+                     f"{r['codec']} inflater produced {r['bytes']} decoded bytes in {r['calls']} call(s) (largest {r['largest']}), "
+                     f"max_decompressed_bytes={maxd0} (+65536 allowed)")
+            return
     # O4: result
     if "ok" in real["val"]:
         data = bytes.fromhex(real["val"]["ok"])
@@ -665,10 +683,15 @@ def gen_object(rng: Any) -> tuple[bytes, bytes, str | None]:
     if mode < 0.70:
         d = _rbytes(rng, size)
         return d, d, rng.choice(["identity", "br", "", " ", "x-zstd", "zstd2", "gzip,zstd"])
-    plain = rng.random() < 0.5
-    d = _rbytes(rng, size) if plain else bytes([rng.randrange(256)]) * rng.choice([0, 10, 5000, 70000, 300_000])
+    plain = rng.random() < 0.4
+    d = _rbytes(rng, size) if plain else bytes([rng.randrange(256)]) * rng.choice([0, 10, 5000, 70000, 300_000, 1_000_000, 3_000_000])
     codec = rng.choice([Encoding.ZSTD, Encoding.GZIP])
     stored = compress(codec, d)
+    if codec is Encoding.ZSTD and rng.random() < 0.5:
+        import zstandard
+
+        # a streaming frame: no decoded size in the header, so the bounded read loop (not the up-front check) is what limits it
+        stored = zstandard.ZstdCompressor(level=3, write_content_size=False).compress(d)
     if rng.random() < 0.1:
         stored = stored[: max(0, len(stored) - 3)]  # corrupt
     hdr = rng.choice([codec.value, codec.value.upper(), f" {codec.value} ", f"{codec.value};q=1", f"{codec.value} ; x"])
@@ -761,9 +784,18 @@ def gen_case(rng: Any) -> dict[str, Any]:
         chunk = max(chunk, n // rng.randint(2, 40) + 1)
     cfg = {
         "parallelThreshold": threshold, "chunkSize": chunk, "maxParallel": rng.choice([1, 1, 2, 8]), "maxFetch": max_fetch,
-        "maxDecompressed": rng.choice([None, None, None, len(decoded), max(0, len(decoded) - 1), 10, 1 << 22]),
+        "maxDecompressed": rng.choice([None, None, None, len(decoded), max(0, len(decoded) - 1), 10, 1 << 22]),  # refined below
         "maxRedirects": rng.choice([0, 1, 2, 2, 3, 5]), "hedgeMultiplier": 0.0, "maxHedges": 4, "timeout": 30.0,
     }
+    # decoded size around / far above the decoded cap ("bomb-like bodies around the cap"); a large decoded object always gets a
+    # cap it does not fit under by much, so the codec oracle of the model never has to carry megabytes
+    nd = len(decoded)
+    if ce is not None and nd != len(stored) and (rng.random() < 0.5 or nd > 300_000):
+        cfg["maxDecompressed"] = rng.choice([nd, max(0, nd - 1), max(0, nd - 2), nd // 2, nd // 20 + 1, max(0, nd - 65536), max(0, nd - 65537),
+                                             max(0, nd - 70000), 0, 1, 10, 65536, 100_000])
+        if nd > 300_000:
+            cfg["maxDecompressed"] = min(cfg["maxDecompressed"], 300_000)
+            cfg["maxFetch"] = max(cfg["maxFetch"], n + 1)
     # ---- final path behaviour
     fin = "/obj" + rng.choice(["", "/data.arrow", ";v=1", "/a/b/c"])
     hce = ce if rng.random() < 0.85 else rng.choice([None, "zstd", "gzip", "identity"])
@@ -1074,6 +1106,24 @@ def corpus() -> list[dict[str, Any]]:
         # a 206 that serves a different range of the right length
         mk("http://{O}/obj", [dict(objp, range=[dict(rng_ok, cr="bytes 1000-1023/1024")])], {"parallelThreshold": 1, "chunkSize": 24}),
     ]
+    # bomb-like encoded bodies around and far above the decoded cap, gzip / zstd (sized and streaming frames)
+    from vgi_rpc._codec import Encoding, compress
+
+    def bomb(codec: str, nd: int, cap: int, streaming: bool = False) -> dict[str, Any]:
+        d = b"\x00" * nd
+        if codec == "zstd" and streaming:
+            import zstandard
+
+            stored = zstandard.ZstdCompressor(write_content_size=False).compress(d)
+        else:
+            stored = compress(Encoding(codec), d)
+        pth = {"path": "/obj", "object": stored.hex(), "head": [{"status": 200, "cl": str(len(stored)), "ar": "none", "ce": codec}],
+               "get": [{"status": 200, "body": {"k": "object"}, "ce": codec}], "range": [], "rangeAt": []}
+        return mk("http://{O}/obj", [pth], {"maxDecompressed": cap}, object_len=len(stored))
+
+    for codec, streaming in (("gzip", False), ("zstd", False), ("zstd", True)):
+        for nd, cap in ((2_000_000, 1000), (2_000_000, 65536), (1001, 1000), (1002, 1000), (1000, 1000), (70_000, 10), (400_000, 100_000), (5, 0)):
+            out.append(bomb(codec, nd, cap, streaming))
     import copy
 
     return [with_prefix(copy.deepcopy(c)) for c in out]
